@@ -1,0 +1,65 @@
+//go:build verif
+
+package type3
+
+import (
+	hpke "github.com/cisco/go-hpke"
+)
+
+// Verification hooks (build tag verif only): read access to unexported state and
+// to the unexported padding helpers, for an external checker.
+
+func VerifPad(name string) []byte { return padOriginName(name) }
+func VerifUnpad(b []byte) string  { return unpadOriginName(b) }
+
+func copyStrMap(m map[string]string) map[string]string {
+	o := make(map[string]string, len(m))
+	for k, v := range m {
+		o[k] = v
+	}
+	return o
+}
+
+// VerifDump returns copies of the three bookkeeping maps.
+func (s *ClientState) VerifDump() (originIndices, clientIndices map[string]string, originCounts map[string]int) {
+	oc := make(map[string]int, len(s.originCounts))
+	for k, v := range s.originCounts {
+		oc[k] = v
+	}
+	return copyStrMap(s.originIndices), copyStrMap(s.clientIndices), oc
+}
+
+// VerifClone returns a deep copy of the state.
+func (s *ClientState) VerifClone() *ClientState {
+	a, b, c := s.VerifDump()
+	return &ClientState{originIndices: a, clientIndices: b, originCounts: c}
+}
+
+func VerifNewInner(tokenKeyID uint8, blindedMsg, paddedOrigin []byte) InnerTokenRequest {
+	return InnerTokenRequest{tokenKeyId: tokenKeyID, blindedMsg: blindedMsg, paddedOrigin: paddedOrigin}
+}
+
+func (r *InnerTokenRequest) VerifFields() (uint8, []byte, []byte) {
+	return r.tokenKeyId, r.blindedMsg, r.paddedOrigin
+}
+
+func (k EncapKey) VerifParts() (uint8, hpke.CipherSuite, hpke.KEMPublicKey) {
+	return k.id, k.suite, k.publicKey
+}
+
+func (k PrivateEncapKey) VerifPrivate() hpke.KEMPrivateKey { return k.privateKey }
+
+func (i *RateLimitedIssuer) VerifNameKey() PrivateEncapKey { return i.nameKey }
+
+// VerifOrigins lists the registered origin names.
+func (i *RateLimitedIssuer) VerifOrigins() []string {
+	var out []string
+	for k := range i.originIndexKeys {
+		out = append(out, k)
+	}
+	return out
+}
+
+func (s RateLimitedTokenRequestState) VerifSecrets() (encapSecret, encapEnc, tokenInput []byte) {
+	return s.encapSecret, s.encapEnc, s.tokenInput
+}
